@@ -89,6 +89,18 @@ def corpus(workdir, seed, tier):
     import compilesuite
     out.append(("cycles", "thrift", [put("cycles.thrift", compilesuite.cycles_doc(random.Random(seed * 7 + 1), 60 if tier == "quick" else 160))]))
     out.append(("shopp", "protobuf", [shop_proto(put)]))
+    # services that inherit across files, with a struct that several files use (in workspace mode it moves to the common crate and
+    # every crate re-exports what it needs from the others)
+    sb = put("svc_b.thrift", "namespace rs svc.b\nstruct Shared { 1: i32 id, 2: optional string note }\nstruct OnlyB { 1: Shared s, 2: list<Shared> more }\n"
+                             "exception Oops { 1: string why }\nservice B { Shared base(1: OnlyB b) throws (1: Oops o), void ping() }\n")
+    sc = put("svc_c.thrift", "namespace rs svc.c\ninclude \"svc_b.thrift\"\nstruct OnlyC { 1: svc_b.Shared s, 2: map<string, svc_b.OnlyB> m }\n"
+                             "service C extends svc_b.B { OnlyC third(1: svc_b.Shared s) }\n")
+    sa = put("svc_a.thrift", "namespace rs svc.a\ninclude \"svc_b.thrift\"\ninclude \"svc_c.thrift\"\nstruct OnlyA { 1: svc_b.Shared s, 2: svc_c.OnlyC c }\n"
+                             "service A extends svc_c.C { OnlyA get(1: svc_b.Shared s, 2: svc_c.OnlyC c) throws (1: svc_b.Oops o) }\n")
+    out.append(("svc", "thrift", [sa, sb, sc]))
+    # one module with many items (more than any batch size a parallel writer might use): the order of items inside a module
+    big = "namespace rs big.one\n" + "".join(f"struct Item{i:04} {{ 1: i32 a, 2: optional string s }}\n" if i % 7 else f"enum Kind{i:04} {{ A = 1, B = 2 }}\n" for i in range(700 if tier == "quick" else 1400))
+    out.append(("big", "thrift", [put("big.thrift", big)]))
     for d in idlgen.fixed_docs():
         out.append((d["name"], "thrift", [put(d["name"] + ".thrift", idlgen.render(d))]))
     r = random.Random(seed * 17 + 5)
@@ -209,7 +221,7 @@ def step(cfg, tier, seed, workdir, env):
         modes = [("single", []), ("split", ["--split"])]
         if name in ("shop", "multi"):
             modes += [("dedup", ["--dedup=Common", "--dedup=Leaf"]), ("dedup-split", ["--split", "--dedup=Common"])]
-        if name in ("shop", "shopp", "multi", "nested") or tier == "thorough":
+        if name in ("shop", "shopp", "multi", "nested", "svc") or tier == "thorough":
             modes += [("workspace", ["--workspace"]), ("workspace-split", ["--workspace", "--split"])]
         for mode, flags in modes:
             hashes = []
